@@ -135,7 +135,8 @@ theorem GzP_hFlush (gz : Gz) (rq : Req) (ae : Option Str) (s : St) (fin : Bool)
     cases ht : transformChunk gz s.t s.base.buf.flatten fin with
     | none =>
       have e : hFlush gz rq s fin = ({ base := { s.base with buf := [] }, t := s.t }, true) := by
-        simp [hFlush, hw, ht]
+        rw [hFlush_eq gz rq s fin (Or.inl hw)]
+        simp [hFlushT, hw, ht]
       rw [e]
       exact ⟨v1, v2, fun h => (by rw [show ({ s.base with buf := [] } : C02.St).headersWritten = true from hw] at h; cases h)⟩
     | some p =>
@@ -152,7 +153,11 @@ theorem GzP_hFlush (gz : Gz) (rq : Req) (ae : Option Str) (s : St) (fin : Bool)
         subst this
         exact v2 h
   · have hw' : s.base.headersWritten = false := by simpa using hw
-    rw [hFlush_unwritten gz rq s fin hw']
+    by_cases hv : clValid s.base.hdrs = true
+    case neg =>
+      rw [hFlush_reject gz rq s fin hw' (by simpa using hv)]
+      exact ⟨v1, v2, v3⟩
+    rw [hFlush_unwritten gz rq s fin hw' hv]
     obtain ⟨g1, g2⟩ := transformFirst_gz gz s.t s.base.status s.base.hdrs s.base.buf.flatten fin
     refine ⟨fun h => v1 (g1 h), fun h => ?_, fun h => (by rw [show _ = true from hFlushCore_hw rq _] at h; cases h)⟩
     cases hg : (transformFirst gz s.t s.base.status s.base.hdrs s.base.buf.flatten fin).1.gzipping with
